@@ -169,6 +169,12 @@ class Engine(object):
             raise Unsupported("isinstance of %r" % (obj,))
         outs = []
         for c in classes:
+            if isinstance(c, ObjV) and c.cls is None:
+                # a class object that is only known as an opaque value (an element of a list of classes): the test is an
+                # uninterpreted relation between the object and that value
+                UFS["isa_dyn"] = ([REF, REF], BOOL)
+                outs.append(App("isa_dyn", (obj.term, c.term), BOOL))
+                continue
             if not isinstance(c, ClassV):
                 raise Unsupported("isinstance with non-class")
             nm = "isa_" + c.qual.replace(".", "__")
@@ -323,6 +329,24 @@ def discharge_one(job):
     name, assumptions, goal, timeout, kind, templates, ufs, decls = job
     t0 = time.time()
     try:
+        # constants the assumptions equate (e.g. a ghost list and the parameter a precondition identifies with it) are merged:
+        # the ground lemma rules match terms syntactically
+        from .terms import subst as _subst
+
+        ren = {}
+        for a_ in assumptions:
+            if a_.op == "=" and len(a_.args) == 2 and a_.args[0].op == "#const" and a_.args[1].op == "#const" and a_.args[0].sort == a_.args[1].sort:
+                x, y = a_.args[0], a_.args[1]
+                x = ren.get(x.args[0], x)
+                y = ren.get(y.args[0], y)
+                if str(x) != str(y) and "!q" not in str(x) + str(y):
+                    ren[y.args[0]] = x
+                    for k_ in list(ren):
+                        if str(ren[k_]) == str(y):
+                            ren[k_] = x
+        if ren:
+            assumptions = [_subst(a_, ren) for a_ in assumptions]
+            goal = _subst(goal, ren)
         inst = lemmas.instantiate(assumptions + [goal], templates=templates)
         r = None
         if any(a.op == "#forall" for a in assumptions) and kind != "reach":
